@@ -118,7 +118,7 @@ def single_source(chk, dispose=False):
 
 def run(chk):
     chk.build_and_prove()
-    comb_table.run_ops(chk, "C02", MULTI, oracle, ncase=(15 if chk.tier == "quick" else 200))
+    comb_table.run_ops(chk, "C02", MULTI, oracle, ncase=(15 if chk.tier == "quick" else 200), p_sub_raises=0.3)
     nt_multi = chk.cov["distinct_nontrivial"]
     dist = chk.cov.get("input_distribution", {})
     nt, per_op = single_source(chk)
